@@ -30,6 +30,10 @@ type UpOutcome struct {
 	// ("padding", "cookie", "ecs", "o65001").
 	HasOpt  bool     `json:"has_opt,omitempty"`
 	Options []string `json:"options,omitempty"`
+	// OptFirst: the OPT is the FIRST additional record and is followed by an ordinary
+	// additional record (RFC 6891 6.1.1 lets the OPT sit anywhere in the additional section).
+	OptFirst bool `json:"opt_first,omitempty"`
+	// Fail: the exchange with the upstream fails (error outcome).
 }
 
 func (o UpOutcome) Label() string {
@@ -214,6 +218,9 @@ func BuildAnswer(q *dns.Msg, o UpOutcome) *dns.Msg {
 			opt.Option = append(opt.Option, MkOption(name, true))
 		}
 		r.Extra = append(r.Extra, opt)
+		if o.OptFirst {
+			r.Extra = append(r.Extra, &dns.TXT{Hdr: dns.RR_Header{Name: "glue.example.", Rrtype: dns.TypeTXT, Class: dns.ClassINET, Ttl: 77}, Txt: []string{"additional record after the OPT"}})
+		}
 	}
 	return r
 }
